@@ -255,3 +255,166 @@ def run(P):
             r['findings'].append((kind, msg, where, w[:40]))
         r['stats'] = dict(m.stats)
     return res
+
+
+PARENT_MARKERS = ['E', 'N', 'R', 'Z', 'D', 'L']
+
+
+def claim_parent(mach, rv, st):
+    """parent(): None for "", "/" and a single relative segment; the root for "/x"; "/./" for "//x"; otherwise the text before the LAST "/" """
+    out = []
+    log = dict(x for x in (st[0][-1][3][-1] or ()) if isinstance(x, tuple) and len(x) == 2)
+    for (q, pl) in st[4]:
+        for fut in strscan.completions(mach.spec, q, st[2]):
+            marks = dict(pl)
+            for m, d in fut:
+                if d == 0:
+                    marks.setdefault(m, 0)
+            allm = ({m for m, _ in pl} | {m for m, _ in fut}) & set(PARENT_MARKERS)
+            if len(allm) != 1:
+                continue
+            c = next(iter(allm))
+            if 'is_empty' in log and log['is_empty'] != (c in ('E', 'R')):
+                continue            # is_empty() is decided on its own (predicate check): only the texts it is right about are considered
+            val = None
+            if rv is not None and rv[0] == 'adt' and rv[1].endswith('Option'):
+                val = 'none' if rv[2] == 0 else rv[3][0]
+            if val is None:
+                out.append(('value', f'the result is not an Option ({str(rv)[:50]})'))
+                continue
+            what = {'E': 'the empty path', 'R': 'the path "/"', 'N': 'a single relative segment', 'Z': 'an absolute path with one segment', 'D': 'a path "//x"', 'L': 'a path with several segments'}[c]
+            if c in ('E', 'R', 'N'):
+                if val != 'none':
+                    out.append(('value', f'for {what} the result is {str(val)[:50]} (expected None)'))
+            elif c == 'Z':
+                if not (isinstance(val, tuple) and val[0] == 'constref' and val[1].rstrip().endswith('EMPTY_ABSOLUTE')):
+                    out.append(('value', f'for {what} the result is {str(val)[:50]} (expected the root path)'))
+            elif c == 'D':
+                if not (isinstance(val, tuple) and val[0] == 'lit' and val[1] == b'/./'):
+                    out.append(('value', f'for {what} the result is {str(val)[:50]} (expected "/./": the literal parent "/" would drop the empty segment)'))
+            else:
+                if not (isinstance(val, tuple) and val[0] == 'str'):
+                    out.append(('value', f'for {what} the result is {str(val)[:50]} (expected the text before the last "/")'))
+                    continue
+                if 'L' not in marks:
+                    out.append(('offset', 'returns before the last "/" is reached'))
+                    continue
+                try:
+                    ok = _num_eq(mach, st, val[1], strscan.A0) and mach.offset(st, val[2]) == -marks['L']
+                except strscan.Unsupported:
+                    ok = False
+                if not ok:
+                    import os
+                    if os.environ.get('DBG'): print('DBG', val, marks, mach.offset(st, val[2]), st[1], st[2])
+                    out.append(('offset', 'the result is not the text before the LAST "/"'))
+    return out[:3]
+
+
+def run_parent(P):
+    """Engine S, mirror mode, on PathImpl::parent"""
+    bodies = {n: b for n, b in P.bodies.items() if n.startswith('common::path::')}
+    fn = PRE + 'parent'
+    r = {'key': 'parent', 'fn': fn, 'what': 'parent() = the text before the last "/" (None / root / "/./" in the documented cases)', 'findings': [], 'stats': {}}
+    if fn not in bodies:
+        r['findings'].append(('anchor', f'{fn} not found', None, None))
+        return r
+    pts = scanrun.alphabet_points(bodies, prefix=(fn,))
+    try:
+        sp = build_spec('parent-text', PARENT_MARKERS, True, pts)
+
+        def extra(mach, st, locs, name, args):
+            if name.endswith('::new_unchecked') and args and isinstance(args[0], tuple) and args[0][0] in ('str', 'lit'):
+                return [(args[0], st)]
+            if name == PRE + 'is_empty' and args and isinstance(args[0], tuple) and args[0][0] == 'str':
+                res = []
+                for v in (0, 1):
+                    l2 = list(st[0][-1][3])
+                    l2[-1] = tuple(l2[-1] or ()) + (('is_empty', bool(v)),)
+                    s2 = mach.set_top(st, l2, st[0][-1][1], st[0][-1][2])
+                    lo, hi = s2[2]
+                    if st[1] == 0 and not v:
+                        lo = max(lo, 1)             # nothing read yet: a path that is not empty has at least one byte
+                    res.append((N('abs', v), s2[:2] + ((lo, hi),) + s2[3:]))
+                return res
+            return None
+        m = strscan.Machine(bodies, sp, fn, [BUF], lambda n: False, claim_parent, mirror=True, extra_summary=extra)
+        m.exact_len = True
+        raw = m.run()
+    except Exception as e:
+        import traceback
+        traceback.print_exc()
+        r['findings'].append(('error', f'{type(e).__name__}: {e}', None, None))
+        return r
+    seen = set()
+    for kind, msg, st, where in raw:
+        if (kind, msg[:70]) in seen:
+            continue
+        seen.add((kind, msg[:70]))
+        pre, cont = m.witness(st) if st is not None else (b'', b'')
+        r['findings'].append((kind, msg, where, bytes(reversed(pre + cont))[:40]))
+    r['stats'] = dict(m.stats)
+    return r
+
+
+def run_parent_or_empty(P):
+    """parent_or_empty(): the parent when there is one, otherwise the empty path OF THE SAME KIND (absolute / relative).  Engine S over the
+    function (closures and Option combinators included) with parent() and is_absolute() / is_relative() answering every way."""
+    bodies = {n: b for n, b in P.bodies.items() if n.startswith('common::path::')}
+    fn = PRE + 'parent_or_empty'
+    r = {'key': 'parent_or_empty', 'fn': fn, 'what': 'parent_or_empty() = parent(), or the empty path of the same kind when there is none', 'findings': [], 'stats': {}}
+    if fn not in bodies:
+        r['findings'].append(('anchor', f'{fn} not found', None, None))
+        return r
+    PV = ('opaque', 'the parent')
+
+    def logged(mach, st, what):
+        l2 = list(st[0][0][3])
+        l2[-1] = tuple(l2[-1] or ()) + (what,)
+        f0 = st[0][0]
+        return ((f0[0], f0[1], f0[2], tuple(l2)) + tuple(f0[4:]),) + tuple(st[0][1:]), 
+
+    def extra(mach, st, locs, name, args):
+        if not (args and isinstance(args[0], tuple) and args[0][0] == 'str'):
+            return None
+        base = name.rsplit('::', 1)[-1]
+        if name == PRE + 'parent' and len(args) == 1:
+            return [(strscan.NONE, (logged(mach, st, ('parent', False))[0],) + st[1:]), (strscan.some(PV), (logged(mach, st, ('parent', True))[0],) + st[1:])]
+        if name in (PRE + 'is_absolute', PRE + 'is_relative') and len(args) == 1:
+            out = []
+            for v in (0, 1):
+                absolute = bool(v) if base == 'is_absolute' else not v
+                out.append((N('abs', v), (logged(mach, st, ('abs', absolute))[0],) + st[1:]))
+            return out
+        return None
+
+    def claim(mach, rv, st):
+        log = dict(x for x in (st[0][0][3][-1] or ()) if isinstance(x, tuple) and len(x) == 2)
+        if 'parent' not in log:
+            return [('value', 'the result does not depend on parent()')]
+        if log['parent']:
+            return [] if rv == PV else [('value', f'when the path has a parent the result is {str(rv)[:50]}')]
+        if rv is not None and rv[0] == 'constref':
+            nm = rv[1].rstrip()
+            if 'abs' in log and nm.endswith('EMPTY_ABSOLUTE' if log['abs'] else '::EMPTY'):
+                return []
+        kind = {True: 'an absolute path', False: 'a relative path', None: 'a path whose kind is not tested'}[log.get('abs')]
+        return [('value', f'when the path has no parent the result for {kind} is {str(rv)[:60]} (expected the empty path of the same kind)')]
+    try:
+        sp = build_spec('dir-text', ['L', 'N'], False, ())
+        m = strscan.Machine(bodies, sp, fn, [BUF], lambda n: False, claim, extra_summary=extra)
+        raw = m.run()
+    except Exception as e:
+        import traceback
+        traceback.print_exc()
+        r['findings'].append(('error', f'{type(e).__name__}: {e}', None, None))
+        return r
+    seen = set()
+    for kind, msg, st, where in raw:
+        if (kind, msg[:70]) in seen:
+            continue
+        seen.add((kind, msg[:70]))
+        r['findings'].append((kind, msg, where, None))
+    r['stats'] = dict(m.stats)
+    if m.stats['returns'] == 0 and not raw:
+        r['findings'].append(('value', 'no path through the function returns', None, None))
+    return r
